@@ -7,17 +7,23 @@
    brute-force homomorphisms) — so pruning by canonicity, which keeps one table per class, can
    still reach every class. *)
 EXTENDS LowIndex
-CONSTANTS K, MaxRows, RelsC
+CONSTANTS K, MaxRows, RelsC, LAZY
 X == ExpandedRels(RelsC)
 VARIABLE node
 Init == node = Root(K)
-Next == \E c \in ChildrenAll(node, X, MaxRows) : node' = c
+Kids(T) == IF LAZY THEN ChildrenQ(T, X, MaxRows) ELSE ChildrenAll(T, X, MaxRows)
+Next == \E c \in Kids(node) : node' = c
 Spec == Init /\ [][Next]_node
-NodeClosed == ClosedTable(node, X)
+NodeClosed == LAZY \/ ClosedTable(node, X)
+\* the code's queue computes the closure (for every candidate edge of every node) unless a relator has length one
+QueueIsClosure == HasUnitRelator(X) \/
+   LET ff == FirstFree(node) IN ff[1] = -1 \/
+   \A pos \in ff[1]..NRows(node) :
+      LET T1 == IF pos = NRows(node) THEN AddRow(node) ELSE node IN DeriveQ(T1, X, ff[1], pos, ff[2]) = Derive(T1, X, ff[1], pos, ff[2])
 LeafValid == CompleteT(node) => /\ IsPermAction(node) /\ Transitive(node) /\ SatisfiesRelators(node, RelsC) /\ NRows(node) <= MaxRows
 \* all leaves below a node, as canonical forms
 RECURSIVE LeafForms(_)
-LeafForms(T) == IF CompleteT(T) THEN {CanonAct(T)} ELSE UNION {LeafForms(c) : c \in ChildrenAll(T, X, MaxRows)}
+LeafForms(T) == IF CompleteT(T) THEN {CanonAct(T)} ELSE UNION {LeafForms(c) : c \in Kids(T)}
 RECURSIVE SumClasses(_)
 SumClasses(j) == IF j = 0 THEN 0 ELSE NumSubgroupClasses(K, j, RelsC) + SumClasses(j - 1)
 Transversal == (node = Root(K)) => Cardinality(LeafForms(node)) = SumClasses(MaxRows)
@@ -26,4 +32,6 @@ Z2Rels == <<<<1,2,-1,-2>>>>
 F2Rels == <<>>
 T23Rels == <<<<1,1>>, <<2,2,2>>>>
 KleinB == <<<<1,2,1,-2>>>>
+UnitZ4 == <<<<1>>, <<2,2,2,2>>>>
+UnitS3 == <<<<3>>, <<1,1>>, <<2,2>>, <<1,2,1,2,1,2>>>>
 ====
